@@ -338,7 +338,7 @@ def run_registry_fault(desc):
         kw["stale_check_max_workers"] = desc["stale_W"]
     try:
         with W:
-            res, exc = S.run(out_ids, W=desc["W"], sched=desc["sched"], max_errors=desc["max_errors"], **kw)
+            res, exc = S.run(out_ids, W=desc["W"], sched=desc["sched"], max_errors=desc["max_errors"], hang_watch=False, **kw)
             seq_at_return = H.seq
             in_flight = H.in_flight + H.mt_in_flight
     finally:
